@@ -138,6 +138,37 @@ def _get_action(ck: Check, repo: Repo, fn: Fn, cname: str) -> Optional[str]:
         ok = ok and 0 <= zi < bi
     ck.ob("C19.4", fn, loops[0].ast if loops else fn.node, ok, f"{cname}: arm k's row is the gradient of output k w.r.t. the output layer's trainable parameters, gradients zeroed before each backward",
           construct=f"{cname}: per-arm gradient loop")
+    # the rows stay the gradient features: between the loop that fills g and the rank-one update nothing rescales or overwrites g
+    # (gamma belongs to the bonus only; a g scaled in place would make the matrix inv(lambda I + gamma^2 sum g g^T))
+    if g_name is not None:
+        moves = ("to", "detach", "float", "contiguous")
+        extra: List[ast.AST] = []
+        for n in cfg.live_nodes():
+            if n.kind != "stmt":
+                continue
+            a = n.ast
+            if isinstance(a, ast.AugAssign) and _root_name(a.target) == g_name:
+                extra.append(a)
+            elif isinstance(a, ast.Assign):
+                for t in a.targets:
+                    if isinstance(t, ast.Name) and t.id == g_name:
+                        v = a.value
+                        while isinstance(v, ast.Call) and isinstance(v.func, ast.Attribute) and v.func.attr in moves:
+                            v = v.func.value
+                        zero = isinstance(v, ast.Call) and call_name(v) == "torch.zeros"
+                        if not (zero or (isinstance(v, ast.Name) and v.id == g_name)):
+                            extra.append(a)
+                    elif isinstance(t, ast.Subscript) and _root_name(t) == g_name:
+                        in_loop = bool(loops) and any(a is s or any(a is y for y in ast.walk(s)) for s in loops[0].ast.body)
+                        if not in_loop:
+                            extra.append(a)
+            for c in (x for x in ast.walk(a) if isinstance(x, ast.Call)):
+                f = c.func
+                if isinstance(f, ast.Attribute) and f.attr.endswith("_") and not f.attr.startswith("_") and _root_name(f.value) == g_name:
+                    extra.append(c)
+        ck.ob("C19.1", fn, extra[0] if extra else fn.node, not extra,
+              f"{cname}: the feature rows reach the update as the loop wrote them (nothing rescales or overwrites the feature matrix in between)",
+              detail=ast.unparse(extra[0])[:120] if extra else "", construct=f"{cname}: writes to the feature matrix")
     bonus = [c for c in calls_in(fn.node) if call_name(c) == "torch.sqrt"]
     okb = False
     for c in bonus:
@@ -148,6 +179,13 @@ def _get_action(ck: Check, repo: Repo, fn: Fn, cname: str) -> Optional[str]:
     ck.ob("C19.4", fn, fn.node, "self.gamma * torch.sqrt(" in src or "self.gamma\n" in src or "std=self.gamma * torch.sqrt(" in src, f"{cname}: the width is scaled by gamma",
           construct=f"{cname}: gamma scaling")
     return key
+
+
+def _root_name(e: ast.AST) -> Optional[str]:
+    """g for g, g[k], g[:, None, :] (the local a subscript chain is rooted at); None for anything else."""
+    while isinstance(e, ast.Subscript):
+        e = e.value
+    return e.id if isinstance(e, ast.Name) else None
 
 
 def _local_bound_to(cfg: CFG, pred) -> Optional[str]:
@@ -287,6 +325,9 @@ VARIANTS = [
     ("ts-grads-not-zeroed", _TS, "            self.optimizer.zero_grad()\n            fx.backward(retain_graph=True)", "            fx.backward(retain_graph=True)", "fire", "C19.4"),
     ("ucb-bonus-not-quadratic-form", _UCB, "torch.matmul(g[:, None, :], self.sigma_inv), g[:, :, None]", "torch.matmul(g[:, None, :], self.sigma_inv), self.sigma_inv[:, :, None]", "fire", "C19.4"),
     ("act-mutation-exp-layer-of-old-net", _MF, "individual.exp_layer = get_exp_layer(eval_module)", "individual.exp_layer = get_exp_layer(getattr(individual, network_group.eval))", "fire", "C19.3"),
+    ("ucb-features-scaled-by-gamma-in-place", _UCB, "        with torch.no_grad():\n            action_values = self.actor(obs) + self.gamma * torch.sqrt(", "        with torch.no_grad():\n            g *= self.gamma\n            action_values = self.actor(obs) + torch.sqrt(", "fire", "C19.1"),
+    ("ts-features-mul-underscore", _TS, "        with torch.no_grad():\n            action_values = torch.normal(", "        with torch.no_grad():\n            g.mul_(self.gamma)\n            action_values = torch.normal(", "fire", "C19.1"),
+    ("ucb-feature-matrix-moved-ok", _UCB, "        with torch.no_grad():\n            action_values", "        g = g.detach()\n        with torch.no_grad():\n            action_values", "silent", None),
     ("ucb-rewrite-assign-ok", _UCB, "        self.sigma_inv -= (self.sigma_inv @ v @ v.T @ self.sigma_inv) / (\n            1 + v.T @ self.sigma_inv @ v\n        )",
      "        self.sigma_inv = self.sigma_inv - (self.sigma_inv @ v @ v.T @ self.sigma_inv) / (\n            1 + v.T @ self.sigma_inv @ v\n        )", "silent", None),
 ]
